@@ -5,16 +5,21 @@ Import ListNotations.
 Open Scope Z_scope.
 Definition zadd := Z.add. Definition zmul := Z.mul.
 
+Definition run_scripted (c : cfg) (ops : list op) (sc : list outcome) (cs : list choice) (replies : list (list Z)) :=
+  run_ops (list (list Z)) scripted_peer c ops (init_world replies sc cs).
+
 Definition dispatch (fid : Z) (args : list dyn) : exc dyn :=
   match fid, args with
-  | 1, [DList cfgl; DList opsl; DList scl] =>
+  | 1, [DList cfgl; DList opsl; DList scl; DList csl; DList repl] =>
       match cfg_of cfgl, ops_of opsl with
       | Some c, Some ops =>
-          let '(r, w) := run_ops c ops (init_world (map outcome_of scl)) in
+          let '(r, w) := run_scripted c ops (map outcome_of scl) (map choice_of csl) (bytes_list repl) in
           match r with
           | Ok rs => Ok (DTuple [DList (map res_dyn rs); DList (map ev_dyn (rev (w_trace w)));
                                  match w_sock w with Some s => DInt s | None => DNone end;
-                                 DInt (Z.of_nat (length (w_script w)))])
+                                 DInt (Z.of_nat (length (w_script w))); DInt (Z.of_nat (length (w_choices w)));
+                                 DBytes (w_discarded w);
+                                 DBytes (match w_sock w with Some s => conn_get (w_conns w) s | None => [] end)])
           | Raise e => Raise e end
       | _, _ => Raise TypeError end
   | _, _ => Raise TypeError
